@@ -992,7 +992,7 @@ func c23rootArgs(m ssa.CallInstruction) []int {
 }
 
 func c23mergeRoots(k *eng.Check, siteCall *ssa.Call, sites []*c23site) {
-	c := k.C
+	_ = k.C
 	fn := siteCall.Call.StaticCallee()
 	if fn == nil || len(fn.Blocks) == 0 {
 		k.Unknown("anchor", "mergeRoots", "the transaction merge function has a body", "not found")
@@ -1018,6 +1018,53 @@ func c23mergeRoots(k *eng.Check, siteCall *ssa.Call, sites []*c23site) {
 			role[ai] = "tx"
 		}
 	}
+	kinds := map[string]bool{}
+	nMerges := c23mergeRootsIn(k, fn, role, kinds)
+	if nMerges < 2 {
+		// the two merges may have been moved into helper functions (phase split): follow one level of same-package
+		// helpers, mapping the roles of the working-set arguments through the call
+		paramRoleTop := func(v ssa.Value) string {
+			leaves, _ := c23wsChain(v)
+			r := ""
+			for _, l := range leaves {
+				pi := c23paramIndex(fn, l)
+				if pi < 0 {
+					return "?"
+				}
+				if r != "" && r != role[pi] {
+					return "?"
+				}
+				r = role[pi]
+			}
+			return r
+		}
+		for _, ci := range eng.Calls(fn, func(q ssa.CallInstruction) bool {
+			h := q.Common().StaticCallee()
+			return h != nil && len(h.Blocks) > 0 && eng.FuncPkg(h) == eng.FuncPkg(fn) && len(eng.Calls(h, c23mMergeRoots, false)) > 0
+		}, false) {
+			h := ci.Common().StaticCallee()
+			hrole := map[int]string{}
+			for _, ai := range c23argsOfType(ci, c23WsPtr) {
+				hrole[ai] = paramRoleTop(ci.Common().Args[ai])
+			}
+			k.FuncsSeen[h] = true
+			nMerges += c23mergeRootsIn(k, h, hrole, kinds)
+			// the helper's verdict is consumed: success of the merge function only after the helper returned nil
+			k.OnlyAfter("merge-result-installed", fn, "the merge function succeeds only after its phase helper "+eng.Name(h)+" returned nil", eng.C23SuccessExits(fn), 1, eng.OkCut(ci))
+		}
+	}
+	if nMerges < 2 {
+		k.Unknown("merge-roles", eng.Name(fn), "merge.MergeRoots calls (working and staged)", fmt.Sprintf("found %d, confirmed floor 2", nMerges))
+	}
+	if !kinds["Working"] || !kinds["Staged"] {
+		k.Unknown("merge-roles", eng.Name(fn), "both the working and the staged roots are merged", fmt.Sprintf("kinds found: %v", kinds))
+	}
+}
+
+// c23mergeRootsIn applies the per-merge role / install / skip rules inside fn, whose working-set parameters carry
+// the given roles ("existing", "start", "tx"); it returns the number of merge.MergeRoots calls it found.
+func c23mergeRootsIn(k *eng.Check, fn *ssa.Function, role map[int]string, kinds map[string]bool) int {
+	c := k.C
 	paramRole := func(v ssa.Value) string {
 		leaves, _ := c23wsChain(v)
 		r := ""
@@ -1034,11 +1081,7 @@ func c23mergeRoots(k *eng.Check, siteCall *ssa.Call, sites []*c23site) {
 		return r
 	}
 	merges := eng.Calls(fn, c23mMergeRoots, false)
-	if len(merges) < 2 {
-		k.Unknown("merge-roles", eng.Name(fn), "merge.MergeRoots calls (working and staged)", fmt.Sprintf("found %d, confirmed floor 2", len(merges)))
-	}
 	exits := eng.C23SuccessExits(fn)
-	kinds := map[string]bool{}
 	for _, mi := range merges {
 		m := mi.(*ssa.Call)
 		ra := c23rootArgs(m)
@@ -1117,9 +1160,7 @@ func c23mergeRoots(k *eng.Check, siteCall *ssa.Call, sites []*c23site) {
 		}
 		k.OnlyAfter("merge-skipped-only-if-equal", fn, "success without the "+kind+" merge is possible only when the existing and the transaction's "+kind+" roots are equal", exits, 1, eng.UnionOf(eng.OkCut(m), eq))
 	}
-	if !kinds["Working"] || !kinds["Staged"] {
-		k.Unknown("merge-roles", eng.Name(fn), "both the working and the staged roots are merged", fmt.Sprintf("kinds found: %v", kinds))
-	}
+	return len(merges)
 }
 
 // c23headMerge: doltCommit merges the moved branch head into the staged root before the store call.
